@@ -100,11 +100,36 @@ def make_draw(op, dim, r, core=False, mp=True, momentum=None, odim=None, unit_qu
         # comparison is then decided by rounding in whichever system it is carried out -- use non-zero components
         if any(c == 0 for c in self_rv.comps()):
             self_rv = R.RV(*[c if c != 0 else gen.dyadic(r, 0.1, 10) for c in self_rv.comps()])
-        # clear-cut operands: either a tiny rescaling of self (close) or an unrelated vector (far)
-        if r.random() < 0.5:
+        # clear-cut operands: a tiny rescaling of self (close), a vector that differs from self in one place only (one
+        # component mirrored, or the transverse / longitudinal / temporal part scaled by 1.5: unequal and not close in
+        # every coordinate system, yet equal in all coordinates but one or two of any given system), or an unrelated
+        # vector (far)
+        kind_ = r.random()
+        if kind_ < 0.4:
             o = R.op_scale(self_rv, 1 + mpf(2) ** -12)
             args[0] = ("vec", o)
             lab += "/near"
+        elif kind_ < 0.7 and args[0][0] == "vec" and args[0][1].dim == self_rv.dim:
+            c = list(self_rv.comps())
+            n_ = max(abs(x) for x in c)
+            choices = [("mirror", i) for i in range(min(3, len(c))) if abs(c[i]) >= mpf("0.3") * n_]
+            choices += [("transverse", None)]
+            # (scaling z alone is *not* such a change: close to the axis theta and eta hardly notice it, and isclose
+            #  compares whatever coordinates are stored)
+            if len(c) == 4 and abs(c[3]) >= mpf("0.8") * n_:
+                # (with |t| well below |p| a tau-stored vector hardly notices t: tau**2 = t**2 - p**2)
+                choices.append(("temporal", None))
+            how, i = r.choice(choices)
+            if how == "mirror":
+                c[i] = -c[i]
+            elif how == "transverse":
+                c[0], c[1] = c[0] * mpf("1.5"), c[1] * mpf("1.5")
+            elif how == "longitudinal":
+                c[2] = c[2] * mpf("1.5")
+            else:
+                c[3] = c[3] * mpf("1.5")
+            args[0] = ("vec", R.RV(*c))
+            lab += "/one-place:" + how
         else:
             # "far" has to be far in every coordinate system: a pair 6 % apart in rho and phi can be 50 % apart in y
             # (false alarm of the thorough tier, seed 2).  Euclidean distance of at least 3/4 of the larger length.
